@@ -195,6 +195,19 @@ Theorem posting_line_without_amount : forall a, name_ok a = true -> split_post_l
 Proof. exact split_post_line_bare. Qed.
 Print Assumptions posting_line_without_amount.
 
+(* an amount is present exactly when something other than a note (;) or an assertion (=) follows the gap; a line that
+   ends with the account name has none (its amount is the elided one, C02) *)
+Theorem posting_amount_follows_the_gap : forall a sep c t,
+  name_ok a = true -> sep_ok sep = true -> is_ws c = false ->
+  has_amount_text (snd (split_post_line (a ++ sep ++ c :: t))) = negb (Z.eqb c 59) && negb (Z.eqb c 61).
+Proof. exact amount_follows_the_gap. Qed.
+Print Assumptions posting_amount_follows_the_gap.
+
+Theorem posting_line_ending_with_the_account_has_no_amount : forall a,
+  name_ok a = true -> has_amount_text (snd (split_post_line a)) = false.
+Proof. exact bare_posting_has_no_amount. Qed.
+Print Assumptions posting_line_ending_with_the_account_has_no_amount.
+
 Example ex_posting_line_gaps :
   let a := [69;120;112;58;68;32;79]%Z in
   name_ok a = true /\ sep_ok [SP; TAB] = true /\ sep_ok [TAB] = true /\ sep_ok [SP; SP; SP] = true /\
